@@ -104,6 +104,29 @@ example : wfFeature { key := c!"CDS", loc := c!"join(1..20,complement(30..40))",
     ∧ quickMetaCheck c!"ORIGIN" = .ok true ∧ FStop c!"ORIGIN" := by
   refine ⟨by decide, by decide, ⟨by decide, by decide, by decide⟩⟩
 
+/- Full statement (false for repeated keys, see the witness):
+   `∀ fs ls stop B, (∀ f ∈ fs, wfFeatureLoose f) → … → getFeatures (featsLines fs ls ++ stop :: B) = .ok (fs.map toFeature)` -/
+
+/-- What the parser does keep when qualifier keys repeat: `Feature.Attributes` is a map, so of several
+qualifiers with one key the LAST value survives (`toFeatureM`); everything else — keys, location text, all
+other values, for every layout incl. unquoted (`/codon_start=1`) and value-less (`/pseudo`) qualifiers and
+keys with capitals — is as in `features_recovered`. -/
+theorem features_recovered_last_wins (fs : List RFeature) (ls : List FeatLayout) (stop : Str) (B : List Str)
+    (hw : ∀ f ∈ fs, wfFeatureLoose f = true) (hm : quickMetaCheck stop = .ok true) (hs : FStop stop) :
+    getFeatures (featsLines fs ls ++ stop :: B) = .ok (fs.map toFeatureM) :=
+  getFeatures_table_loose fs ls stop B hw hm hs
+
+/-- known finding C01-repeated-qualifier-key: two `/db_xref` on one CDS, the first value is lost -/
+theorem repeated_qualifier_key_witness :
+    ¬ (∀ (fs : List RFeature) (ls : List FeatLayout) (stop : Str) (B : List Str), (∀ f ∈ fs, wfFeatureLoose f = true) →
+        quickMetaCheck stop = .ok true → FStop stop →
+        getFeatures (featsLines fs ls ++ stop :: B) = .ok (fs.map toFeature)) := by
+  intro h
+  have := h [{ key := c!"CDS", loc := c!"1..12", quals := [(c!"db_xref", c!"GI:1"), (c!"db_xref", c!"GI:2")] }] [] c!"ORIGIN" []
+    (by decide) (by decide) ⟨by decide, by decide, by decide⟩
+  revert this
+  decide
+
 /-! ## the whole record -/
 
 /-- Composition on lines: the main loop over the lines of a laid-out record (followed by any number of
@@ -118,26 +141,38 @@ LOCUS gaps, where each keyword block, reference block and qualifier value is wra
 `/translation` values are cut, block length and blocks per line of the sequence, `ORIGIN` with or without
 trailing blanks, final newline or not — `Parse` applied to the text returns the record: sequence, LOCUS
 fields, DEFINITION … ORGANISM, references, extra keyword blocks, and every feature with key, location text
-and qualifier values. -/
+and qualifier values.  The layout choices also cover: empty standard blocks written or left out, extra keyword
+blocks (DBLINK, COMMENT, …) in any of the seven places between LOCUS and FEATURES, qualifier values quoted,
+unquoted or absent, location texts of every INSDC shape (order, bond, gap, n.m, n^m, remote). -/
 theorem parse_layout (r : GbRec) (ℓ : RecLayout) (finalNewline : Bool) (h : WF r) :
     parse (layoutText r ℓ finalNewline) = .ok (toSequence r) :=
   parse_layoutText r ℓ finalNewline h
 
+/-- the same for every record of the quantifier, repeated qualifier keys included: what the parser's map
+keeps (`toSequenceM`: per feature the last value of a repeated key) -/
+theorem parse_layout_last_wins (r : GbRec) (ℓ : RecLayout) (finalNewline : Bool) (h : wfLoose r = true) :
+    parse (layoutText r ℓ finalNewline) = .ok (toSequenceM r) :=
+  parse_layoutText_loose r ℓ finalNewline h
+
 /-- a small record exercising every section: two-digit length, a locus called `linear` that is circular,
-wrapped definition, a reference whose journal continues with the word SOURCE, a COMMENT continuing with the
-word TITLE, a multi-line location without qualifier followed by a feature whose value continues with `/b` -/
+wrapped definition, KEYWORDS left out, DBLINK before KEYWORDS, a reference whose journal continues with the word SOURCE, a COMMENT continuing with the
+word TITLE, a multi-line location without qualifier, an `order(…)` location with a value-less qualifier, a feature whose value
+continues with `/b`, a key with capitals and an unquoted value -/
 def exampleRec : GbRec :=
   { locus := ⟨c!"linear", .dna, .circular, 6, c!"01-JAN-2020"⟩
-    definition := c!"a small test record", accession := c!"X1", version := c!"X1.1", keywords := c!"."
+    definition := c!"a small test record", accession := c!"X1", version := c!"X1.1", keywords := []
     source := c!"synthetic construct", organism := c!"synthetic construct"
     refs := [{ range := c!"(bases 1 to 12)", authors := c!"A B", journal := c!"open SOURCE code", pubmed := c!"123" }]
-    extras := [(c!"COMMENT", c!"see TITLE page")]
+    extras := [(c!"DBLINK", c!"BioProject: PRJNA1"), (c!"COMMENT", c!"see TITLE page")]
     features := [{ key := c!"gene", loc := c!"join(1..2,3..4)" },
-                 { key := c!"CDS", loc := c!"1..12", quals := [(c!"note", c!"a /b=c"), (c!"translation", c!"MKV")] }]
+                 { key := c!"misc_feature", loc := c!"order(1..5,7..9)", quals := [(c!"pseudo", [])] },
+                 { key := c!"CDS", loc := c!"1..12", quals := [(c!"note", c!"a /b=c"), (c!"translation", c!"MKV"),
+                                                               (c!"EC_number", c!"1.1.1.1"), (c!"codon_start", c!"1")] }]
     seq := c!"acgtacgtacgt" }
 
 def exampleLay : RecLayout :=
-  { definition := [7], refs := [{ journal := [4] }], extras := [[3]], feats := [{ loc := [9] }, { quals := [[1], [2]] }] }
+  { definition := [7], refs := [{ journal := [4] }], extras := [[], [3]], extraCuts := [0, 0, 0, 1], omitKeywords := true
+    feats := [{ loc := [9] }, { styles := [2] }, { quals := [[1], [2]], styles := [0, 0, 0, 1] }] }
 
 example : WF exampleRec ∧ noSlashEnd exampleRec exampleLay = true := by
   constructor
